@@ -70,7 +70,7 @@ def monitor(sc, res):
 
 def run(ctx):
     scs = [build(ctx.seed * 1000211 + i) for i in range(ctx.scale(170, 3000))]
-    return _scn.run_scn(ctx, scs, monitor, extra_fails=largefiles.extra(ctx), witness_ids=("D11", "D13", "D14"),
+    return _scn.run_scn(ctx, scs, monitor, extra_fails=largefiles.extra(ctx), witness_ids=("D11", "D13", "D14", "D16"),
         assumptions=["ground truth = the mutations the harness itself applied after the last folder-mode create of the root", "altered contents differ from the sealed ones (by construction), so their digests differ in every format used (observed)"])
 
 
